@@ -118,7 +118,7 @@ func (g *c18Gen) width(renderLen int) string {
 		return rapid.SampledFrom([]string{"4096", "65536", "-65536", "065536"}).Draw(g.t, "bigw")
 	case 15:
 		g.labels["width-over-limit"] = true
-		return rapid.SampledFrom([]string{"65537", "-65537", "1000000", "1234567890123456789012345"}).Draw(g.t, "overw")
+		return rapid.SampledFrom([]string{"65537", "-65537", "1000000", "1234567890123456789012345", "4294967297", "9223372036854775808", "18446744073709551616", "18446744073709551626", "-18446744073709551626", "18446744073709551617"}).Draw(g.t, "overw")
 	case 16:
 		g.labels["zero-pad"] = true
 		return "0" + fmt.Sprint(renderLen+2)
